@@ -1,7 +1,7 @@
 """C06 configuration for ./check (see checks/propcfg.py for the keys)."""
 CFG = {
     "modules": ["VaxisModel.Props.C06", "VaxisModel.Props.C06Bridge", "VaxisModel.Witness.F21", "VaxisModel.Witness.F22", "VaxisModel.Witness.F54",
-                "VaxisModel.Witness.F106a", "VaxisModel.Witness.F106b", "VaxisModel.Witness.F106c", "VaxisModel.Witness.F106d", "VaxisModel.Witness.F106e"],
+                "VaxisModel.Witness.F106a", "VaxisModel.Witness.F106b", "VaxisModel.Witness.F106c", "VaxisModel.Witness.F106d", "VaxisModel.Witness.F106e", "VaxisModel.Witness.F106f"],
     "extractors": ["C05"],
     "drivers": ["C06"],
     "stateful": True,
